@@ -188,6 +188,34 @@ def h_method(cname, mname, n, lsb0, prefix_call=None):
     return h
 
 
+PP_FMTS = [None, 'bin', 'hex', 'oct', 'bin8', 'hex:0', 'pad:2', 'pad2', 'pad', 'bin, pad:4', 'pad:3, hex', 'bool', 'uint:3', 'uint3, bin', 'float:16', 'bytes', 'bytes1, hex', 'bits', 'bits4', 'ue',
+           'int4, uint4', 'e4m3mxfp', 'zzz', '', 'bin, hex, oct', 'hex:-4', 'bin:1000']
+
+
+def h_pp_args(cname, n, lsb0):
+    """pp with every kind of format token, separators (including the empty one), widths and both offset settings"""
+    def h(K):
+        import bitstring
+        cls = classes()[cname]
+        # concrete contents: formatting realises every bit, so symbolic content would only multiply the paths by 2^n
+        x = O.from01(K.choice('content', [('0110100111000101' * n)[:n], '1' * n]))
+        s = mk(K, cls, x, 0 if is_stream(cls) else None)
+        fmt = K.choice('fmt', PP_FMTS)
+        sep = K.choice('sep', ['', ' ', '__'])
+        width = K.choice('width', [-1, 0, 1, 30, 120])
+        so = K.bool('show_offset')
+        bitstring.options.lsb0 = lsb0
+        opts = (bitstring.options.lsb0, bitstring.options.bytealigned, bitstring.options.mxfp_overflow)
+        try:
+            r = call(lambda: s.pp(fmt, width, sep, so, io.StringIO()))
+            if not r.ok and not _documented(r.exc):
+                return K.fail('an internal (undocumented) exception escaped from pp()', exc=r.excname, fmt=fmt, sep=sep, width=width, lsb0=lsb0)
+            return _valid(K, s, cls, x, 0 if is_stream(cls) else None, opts, 'pp')
+        finally:
+            bitstring.options.lsb0 = False
+    return h
+
+
 def h_pack(fmt):
     def h(K):
         import bitstring
@@ -240,8 +268,9 @@ def h_ctor(cname, kwname):
         elif kwname == 'auto-int':
             r = call(lambda: cls(K.int('n', -3, 20), length=length, offset=offset, **extra))
         else:
-            v = {'uint': K.int('v'), 'int': K.int('v'), 'hex': 'a5', 'bin': '01', 'bytes': b'\x01\x02', 'float': 1.5, 'bool': True, 'ue': K.int('v', -2, 40), 'bits': '0b1', 'uintle': K.int('v'),
-                 'e4m3mxfp': 1.0, 'nonsense': 1, 'filename': '/nonexistent/file', 'auto': '0b1'}.get(kwname)
+            v = {'uint': lambda: K.int('v'), 'int': lambda: K.int('v'), 'hex': lambda: 'a5', 'bin': lambda: '01', 'bytes': lambda: b'\x01\x02',
+                 'float': lambda: K.choice('fv', [1.5, 10 ** 400, -10 ** 400, float('inf'), float('nan'), 1e308, 7, True]), 'bool': lambda: True, 'ue': lambda: K.int('v', -2, 40), 'bits': lambda: '0b1',
+                 'uintle': lambda: K.int('v'), 'e4m3mxfp': lambda: 1.0, 'nonsense': lambda: 1, 'filename': lambda: '/nonexistent/file', 'auto': lambda: '0b1'}.get(kwname, lambda: None)()
             if kwname == 'bitarray':
                 import bitarray
                 v = bitarray.bitarray('0110')
@@ -267,17 +296,28 @@ def h_array(dtype, mname, k, t):
         import bitstring
         a = bitstring.Array(dtype)
         w = a.itemsize
-        x = K.bits('data', w * k + t)
+        arith_m = mname.startswith('__') and mname not in ('__getitem__', '__setitem__', '__delitem__', '__len__', '__iter__', '__repr__', '__copy__')
+        if arith_m:
+            # element-wise operators are audited on concrete data patterns with catalogue operands: arithmetic on symbolic items with symbolic or huge
+            # operands is beyond the solver (non-linear) and CrossHair's symbolic int model (true division by 10**400), and ended inconclusive
+            pat = K.choice('data', ['zeros', 'ones', 'mixed'])
+            nb = w * k + t
+            x = O.from01({'zeros': '0' * nb, 'ones': '1' * nb, 'mixed': ('0110100111000101' * nb)[:nb]}[pat])
+        else:
+            x = K.bits('data', w * k + t)
         a.data = mk(K, bitstring.BitArray, x)
         opts = (bitstring.options.lsb0, bitstring.options.bytealigned, bitstring.options.mxfp_overflow)
         args = []
         for i, c in enumerate(ARRAY_METHODS[mname].split()):
             if c == 'V2':
-                args.append((K.choice(f'a{i}i', [-3, 0, 1, 2, 40]) if LIGHT[0] else K.int(f'a{i}', -40, 40)) if K.bool(f'a{i}?int') else K.choice(f'a{i}', [1.5, 'ff', None, b'\x01', [1, 2], True, 0, float('nan')]))
+                arith = mname.startswith('__') and mname not in ('__getitem__', '__setitem__', '__delitem__')
+                # element-wise operators: the scalar comes from a catalogue (symbolic x symbolic arithmetic is beyond the solver and ends inconclusive)
+                args.append((K.choice(f'a{i}i', [-3, 0, 1, 2, 40]) if (LIGHT[0] or arith) else K.int(f'a{i}', -40, 40)) if K.bool(f'a{i}?int') else
+                            K.choice(f'a{i}', [1.5, 'ff', None, b'\x01', [1, 2], True, 0, float('nan'), float('inf'), -float('inf'), -0.0, 1e308] + ([10 ** 400] if mname in ('__add__', '__sub__', '__mul__', '__setitem__', 'append', 'insert') else [])))
             elif c == 'L':
                 args.append(K.choice(f'a{i}', [[], [1], [1, 'x'], 'ab', b'\x01', 5, None]))
             elif c == 'DT':
-                args.append(K.choice(f'a{i}', ['uint8', 'float16', 'zzz', 'ue', 'bin', 'hex4']))
+                args.append(K.choice(f'a{i}', ['uint8', 'int8', 'float16', 'zzz', 'ue', 'bin', 'hex4', 'uint:0', 'bool']))
             elif c == 'BS':
                 args.append(K.choice(f'a{i}', ['0b1', '0x00', '', 'zz', 5, None]) if not K.bool(f'a{i}?sym') else mk(K, bitstring.Bits, K.bits(f'a{i}b', w)))
             elif c == 'W':
@@ -286,6 +326,11 @@ def h_array(dtype, mname, k, t):
                 args.append(_arg(K, c, a.data, i))
         if mname == 'pp':
             args = [args[0], args[1], True, io.StringIO()]
+        if arith_m and ARRAY_METHODS[mname] == 'V2' and K.bool('array_operand'):
+            # Array (op) Array: equal and unequal lengths, zeros (division), another dtype
+            kind = K.choice('operand', ['zeros', 'ones', 'short', 'other-dtype', 'float-zeros'])
+            args = [{'zeros': lambda: bitstring.Array(dtype, [0] * k), 'ones': lambda: bitstring.Array(dtype, [1] * k), 'short': lambda: bitstring.Array(dtype, [1] * (k + 1)),
+                     'other-dtype': lambda: bitstring.Array('int16', [0, -3][:k] + [0] * max(0, k - 2)), 'float-zeros': lambda: bitstring.Array('float32', [0.0] * k)}[kind]()]
 
         def go():
             r = get_attr(a, mname)(*args)
@@ -293,7 +338,7 @@ def h_array(dtype, mname, k, t):
                 r = list(r)
             return r
         r = call(go)
-        if not r.ok and not (_documented(r.exc) or isinstance(r.exc, (ZeroDivisionError, OverflowError, EOFError))):
+        if not r.ok and not (_documented(r.exc) or isinstance(r.exc, EOFError)):      # EOFError: documented for fromfile (mirrors array.array)
             return K.fail('an internal (undocumented) exception escaped from an Array method', method=mname, exc=r.excname, dtype=dtype)
         now = (bitstring.options.lsb0, bitstring.options.bytealigned, bitstring.options.mxfp_overflow)
         ok = now == opts and len(a.data.bin) == len(a.data) and isinstance(a.data, bitstring.BitArray)
@@ -398,22 +443,25 @@ def conditions(tier):
                 add(f'C20.sequence[{cname}.{first[0]};{mname}]', h_method(cname, mname, 3 if q else 5, False, first), 'two-call sequence on one object', cls=cname, method=mname, first=first[0])
     for fmt in (FMT_Q if q else FMT) + ['uint:n', 'uint:n=v', 'hex=v', 'bits:n', '2*uint:4', 'n*uint:2', 'float:32', 'ue, se']:
         add(f'C20.pack[{fmt!r}]', h_pack(fmt), 'format (possibly malformed) x 0-2 positional values x keyword arguments')
-    for tok in (['uint', 'float', 'bytes', 'ue', 'zzz', 'hex:5', 'e4m3mxfp', 'uint:3', 'pad', ''] if q else FMT + ['uint', 'int', 'float', 'bytes', 'pad', 'bits', 'hex', 'e8m0mxfp', 'mxint', 'uintne']):
+    for tok in (['uint', 'float', 'bytes', 'ue', 'zzz', 'hex:5', 'e4m3mxfp', 'uint:3', 'pad', ''] if q else list(dict.fromkeys(FMT + ['uint', 'int', 'float', 'bytes', 'pad', 'bits', 'hex', 'e8m0mxfp', 'mxint', 'uintne']))):
         add(f'C20.Dtype[{tok!r}]', h_dtype(tok), 'token x length catalogue x scale catalogue; build/parse/str/repr/eq/hash')
     for cname in (['Bits', 'BitStream'] if q else CLS):
         for kwname in ['auto-str', 'auto-int', 'uint', 'int', 'hex', 'bin', 'bytes', 'float', 'bool', 'ue', 'bits', 'bitarray', 'uintle', 'e4m3mxfp', 'nonsense', 'filename', 'auto']:
             if q and cname == 'BitStream' and kwname not in ('auto-str', 'uint', 'bytes', 'bitarray', 'hex'):
                 continue
             add(f'C20.constructor[{cname},{kwname}]', h_ctor(cname, kwname), 'initialiser kind x length in [-2,70] or None x offset in [-2,20] or None x every int pos')
+    for cname in (['Bits', 'BitStream'] if q else CLS):
+        for lsb0 in (False, True):
+            for n in ([9] if q else [0, 9, 24]):
+                add(f"C20.pp-args[{cname},n={n}{',lsb0' if lsb0 else ''}]", h_pp_args(cname, n, lsb0), f'two {n}-bit contents x {len(PP_FMTS)} formats x 3 separators x 5 widths x show_offset', cls=cname)
     for dk in ARRAY_DTYPES:
         add(f'C20.array-ctor[{dk}]', h_array_ctor(dk), 'dtype x 12 initialisers x trailing bits x 14 follow-up operations (catalogues chosen by solver forks)', dtype=dk)
     for dtype in (['uint5', 'float16'] if q else ['uint5', 'int8', 'float16', 'hex4', 'bool', 'bytes2', 'e4m3mxfp']):
         for mname in ARRAY_METHODS:
             if q and dtype == 'float16' and mname not in ('append', 'count', '__setitem__', '__add__', '__truediv__', '__lt__'):
                 continue
-            if q and mname in ('__mod__', 'pp', 'astype', '__add__', '__sub__', '__mul__', '__floordiv__', '__truediv__', '__lshift__', '__rshift__', '__eq__', '__ne__', '__lt__', '__iadd__',
-                               '__imul__', '__ifloordiv__'):
-                continue   # element-wise arithmetic on symbolic items needs non-linear reasoning: thorough tier only
+            if q and mname in ('__mod__', 'pp', '__sub__', '__rshift__', '__ne__', '__imul__', '__ifloordiv__') and dtype != 'uint5':
+                continue
             for (k, t) in ([(2, 3)] if q else [(0, 0), (2, 0), (2, 3)]):
                 add(f'C20.array[{dtype}.{mname},k={k},t={t}]', h_array(dtype, mname, k, t), 'symbolic data x catalogue/symbolic arguments', dtype=dtype, method=mname)
     return conds
